@@ -9,9 +9,9 @@ import nqlib
 from nqlib import Check, VERIF, NCPU, run_pipeline, parse_driver_output, driver_path, standard_verdict, kv, shortest
 
 RULE = ("qmail-pop3d: every message over {LF,'.',a,CR} up to length %s retrieved with RETR, TOP 1 0/1/2, TOP 1; every command sequence up to length %s "
-        "over a 41-command alphabet (all verbs; arguments none, 0, 1, n, n+1, 2^64+1, junk; upper/lower case) on 5 maildir populations "
+        "over a 43-command alphabet (all verbs; arguments none, 0, 1, n, n+1, 2^64+1, junk, a number followed by junk, RETR with a second number; upper/lower case) on 5 maildir populations "
         "(empty; new/ and cur/; dot-leading lines; no final newline; empty file; CRLF content; equal mtimes; dot files; mtime = now and in the future; "
-        "old and fresh tmp/ files), each ended by QUIT or by a dropped connection; refusal as uid 0 / without a maildir; %s seeded random sessions "
+        "old and fresh tmp/ files), each ended by QUIT or by a dropped connection; for each of DELE/RETR/TOP/LIST/UIDL the number followed by x, ' x', a space, a second number, 2abc, a tab, '.', '-', a leading + or 0, after nothing / DELE 1 / DELE 2, on every population; refusal as uid 0 / without a maildir; %s seeded random sessions "
         "(random maildirs up to 12 messages, files removed by a third party between commands, input cut into arbitrary read sizes, unfinished last line). "
         "now and then a maildir of 20-49 messages. prioq.c driven directly: every insertion order of up to 6 entries over 4 time stamps, and seeded random "
         "histories of up to 400 prioq_insert/prioq_delmin calls (few or many equal keys), array and removals compared with the model, oracle = every delmin "
